@@ -154,7 +154,7 @@ def build_programs(ctx):
             seen.add(G.key(p))
             progs.append(p)
     n_ex2 = len(progs)
-    n_rand = ctx.pick(3000, 60000)
+    n_rand = ctx.pick(3000, 30000)
     tries = 0
     while len(progs) < n_ex2 + n_rand and tries < 20 * n_rand:
         tries += 1
@@ -168,7 +168,7 @@ def build_programs(ctx):
         # seeded sample of the size-4 layer (593 693 canonical programs; too many to replay all)
         layer = [p for p in G.enumerate_programs(4) if G.size(p) == 4]
         rng.shuffle(layer)
-        for p in layer[:40000]:
+        for p in layer[:15000]:
             k = G.key(p)
             if k not in seen:
                 seen.add(k)
